@@ -118,7 +118,8 @@ def m_close(I, fn, n, args, st):
         else:
             ev(I, "close-raw", fn, n, a, st)
     ev(I, "close", fn, n, args[0], st)
-    return [(s, fs(0)), (s, fs(-1))]
+    # a failing close (EINTR, EIO) has released the descriptor all the same (Linux; POSIX leaves it unspecified)
+    return [(s, fs(0)), (with_errno(s, I.pos()), fs(-1))]
 
 
 def m_fork(I, fn, n, args, st):
@@ -154,6 +155,51 @@ def m_waitpid(I, fn, n, args, st):
     s_gone.mon.pop("eintr", None)
     s_ok.mon.pop("eintr", None)
     return [(with_errno(s_int, fs(EINTR)), fs(-1)), (with_errno(failed(s_gone, fn, n), other), fs(-1)), (s_ok, args[0])]
+
+
+WAITID_SAMPLE = {"exited": 7, "killed": 9, "dumped": 11}      # representative exit code / signals of the decode rule (C01.R5w)
+
+
+def m_waitid(I, fn, n, args, st):
+    """waitid(P_PID, pid, &info, WEXITED): like waitpid(pid, &s, 0) but returns 0 and reports through siginfo_t:
+    si_code CLD_EXITED(1)/CLD_KILLED(2)/CLD_DUMPED(3), si_status = exit code / signal number (Linux values)."""
+    from .facts import strip
+    raw = strip(n["c"][4]).get("val") if len(n.get("c", [])) > 4 else None
+    idt = strip(n["c"][1]).get("val") if len(n.get("c", [])) > 1 else None
+    # normalised for the rules on the reap: options 0 <=> blocks, and only for termination (exactly WEXITED); a first
+    # argument other than P_PID reaps children that are not this handle's
+    pidv = args[1] if idt == 1 else fs(-1)
+    ev(I, "waitpid", fn, n, (pidv, fs(0) if raw == 4 else I.pos()), st)
+    outs = []
+    for kind, code in (("exited", 1), ("killed", 2), ("dumped", 3)):
+        s_ok = havoc_targets(I, st, args[2])
+        for a in args[1]:
+            if isinstance(a, tuple) and a[0] == "pid":
+                if s_ok.res.get(a) == ("reaped",):
+                    ev(I, "double-reap", fn, n, a, st)
+                s_ok.res[a] = ("reaped",)
+        for t in targets(I, args[2]):
+            s_ok.mem[("f", t, "si_code")] = fs(I.abs_int(code))
+            sv = WAITID_SAMPLE[kind]
+            if st.mon.get("waitid_concrete") and sv in I.Kset:
+                val = fs(sv)
+            else:
+                val = I.nonneg() if kind == "exited" else I.pos()
+            s_ok.mem[("f", ("f", ("f", t, "_sifields"), "_sigchld"), "si_status")] = val
+            s_ok.mem[("f", ("f", ("f", t, "_sifields"), "_sigchld"), "si_pid")] = args[1]
+        s_ok.mon.pop("eintr", None)
+        s_ok.mon["wait_kind"] = kind
+        outs.append((s_ok, fs(0)))
+    other = frozenset(a for a in I.pos() if a != EINTR)
+    s_gone = st.copy()
+    for a in args[1]:
+        if isinstance(a, tuple) and a[0] == "pid" and s_gone.res.get(a) == ("running",):
+            s_gone.res[a] = ("gone",)
+    s_int = st.copy()
+    if "nofail" not in st.mon:
+        s_int.mon["eintr"] = "%s@%s:%d" % (n.get("callee"), fn.name, n["l"][0])
+    s_gone.mon.pop("eintr", None)
+    return [(with_errno(s_int, fs(EINTR)), fs(-1)), (with_errno(failed(s_gone, fn, n), other), fs(-1))] + outs
 
 
 def m_kill(I, fn, n, args, st):
@@ -200,6 +246,12 @@ def m_read(I, fn, n, args, st):
             not any(isinstance(a, tuple) and a[0] == "fd" for a in args[0]):
         # descriptor (possibly) in nonblocking mode: would-block is a further failure mode
         outs.append((not_interrupted(with_errno(failed(st, fn, n), fs(I.abs_int(11))), "fail"), fs(-1)))
+    elif getattr(I, "env_faults", False):
+        # environment fault (EIO and the like on a valid blocking descriptor): only for the checks that ask for it (C05)
+        s2 = not_interrupted(with_errno(st, frozenset(a for a in I.pos() if a != EINTR)), "fault")
+        if "nofail" not in st.mon:
+            s2.mon["envfault"] = "%s@%s:%d" % (n.get("callee"), fn.name, n["l"][0])
+        outs.append((s2, fs(-1)))
     return outs
 
 
@@ -391,7 +443,7 @@ LIBC = {
     "_exit": m_noreturn, "exit": m_noreturn, "abort": m_noreturn, "__assert_fail": m_noreturn,
     "__errno_location": m_errno_location,
     "pipe": m_pipe, "open": m_open, "close": m_close,
-    "fork": m_fork, "waitpid": m_waitpid, "kill": m_kill,
+    "fork": m_fork, "waitpid": m_waitpid, "waitid": m_waitid, "kill": m_kill,
     "read": m_read, "write": m_write, "fcntl": m_fcntl, "dup2": m_dup2,
     "malloc": m_alloc, "calloc": m_alloc, "strdup": m_alloc, "realloc": m_realloc, "free": m_free,
     "getcwd": m_getcwd, "execvp": m_execvp,
